@@ -38,6 +38,10 @@ Created create_lit(int litslot, const Spec& s) {
     case 13: L_MK(NAMED_REQUIRE_CALL(m, f(_)).WITH(_1 > 2).RETURN(wret(eid)));
     case 14: L_MK(NAMED_ALLOW_CALL(m, ov(ANY(int))).RETURN(wret(eid)));
     case 15: L_MK(NAMED_ALLOW_CALL(m, ov(ANY(std::string const&))).RETURN(wret(eid)));
+    case 30: L_MK(NAMED_FORBID_CALL_V(m, v(_), .WITH(_1 > 2)));
+    case 31: L_MK(NAMED_REQUIRE_CALL_V(m, f(_), .TIMES(2) .RETURN(wret(eid))));
+    case 32: L_MK(NAMED_ALLOW_CALL_V(m, f(le(1)), .RETURN(wret(eid))));
+    case 33: L_MK(NAMED_FORBID_CALL_V(m, f(4)));
   }
   return Created{nullptr, 0};
 }
